@@ -281,6 +281,7 @@ def shipped_member(run, ent, timeout=120):
         buf = open(path, "rb").read()
         try:
             d, used = parse_serialized(buf)
+            determinism(run, f"A/shipped[{name}]:det", f"shipped:{name}", d["transitions"], fn[:2] + [fn[3]], f"transition list serialized in automaton_cache/{name} (before it is collected into a map)")
             same = (d["nb_states"] == ship.nb and d["initial_state"] == ship.init and sorted(d["final_states"]) == sorted(ship.final)
                     and sorted(d["transitions"]) == sorted(ship.raw))
             rt = serialize(ent["shipped"]) == buf
@@ -384,7 +385,7 @@ def translator_validation(run, members, comps, per=6):
 def check(run):
     tier = core.tier()
     N = 8 if tier == "quick" else 16
-    depth, count = (3, 24) if tier == "quick" else (5, 60)
+    depth, count = (3, 16) if tier == "quick" else (5, 60)
     A.build(run)
     run.bounds.append(f"engine A: word length N <= {N}; random ASTs depth {depth} x {count} (seed {core.seed()}); per-state obligations: all states, unbounded suffixes")
     run.assumptions += [
